@@ -1,6 +1,9 @@
 package drivers
 
 import (
+	"time"
+
+	"verifharness/sim"
 	"bufio"
 	"bytes"
 	"encoding/json"
@@ -24,8 +27,16 @@ type childLine struct {
 	Res json.RawMessage `json:"res"`
 }
 
-// childMain is the body of a child test: it runs the jobs of its slice.
-func childMain(t *testing.T, run func(idx int, job json.RawMessage) any) {
+type childCur struct {
+	Idx  int             `json:"idx"`
+	N    int             `json:"n"`
+	Info json.RawMessage `json:"info"`
+}
+
+// childMain is the body of a child test: it runs the jobs of its slice. run
+// may call progress before each run of a job with what is needed to repeat
+// that run (it is handed to onCrash if the child dies or stalls there).
+func childMain(t *testing.T, run func(idx int, job json.RawMessage, progress func(info any)) any) {
 	in := os.Getenv("VERIF_CHILD_JOBS")
 	if in == "" {
 		t.Skip("child process of a driver")
@@ -46,8 +57,16 @@ func childMain(t *testing.T, run func(idx int, job json.RawMessage) any) {
 		if i%step != off {
 			continue
 		}
-		_ = os.WriteFile(resPath+".cur", []byte(fmt.Sprint(i)), 0o644)
-		res, _ := json.Marshal(run(i, jobs[i]))
+		n := 0
+		progress := func(info any) {
+			n++
+			ib, _ := json.Marshal(info)
+			b, _ := json.Marshal(childCur{Idx: i, N: n, Info: ib})
+			_ = os.WriteFile(resPath+".cur.tmp", b, 0o644)
+			_ = os.Rename(resPath+".cur.tmp", resPath+".cur")
+		}
+		progress(nil)
+		res, _ := json.Marshal(run(i, jobs[i], progress))
 		b, _ := json.Marshal(childLine{Idx: i, Res: res})
 		f.Write(append(b, '\n'))
 	}
@@ -55,8 +74,12 @@ func childMain(t *testing.T, run func(idx int, job json.RawMessage) any) {
 
 // runChildren runs all jobs in `workers` child processes executing childTest
 // and returns the raw result per job. onCrash produces the result of a job
-// whose child died (nil = report the death as a harness problem).
-func runChildren(t *testing.T, e Env, childTest string, jobs any, n int, workers int, onCrash func(idx int, output string) any) []json.RawMessage {
+// whose child died or made no progress for stallSeconds of wall-clock time
+// (nil = report it as a harness problem).
+const stallSeconds = 30
+const maxStallsPerWorker = 2
+
+func runChildren(t *testing.T, e Env, childTest string, jobs any, n int, workers int, onCrash func(idx int, info json.RawMessage, output string, stalled bool) any) []json.RawMessage {
 	jobsPath := e.Out + ".jobs.json"
 	if err := writeJSON(jobsPath, jobs); err != nil {
 		t.Fatal(err)
@@ -75,7 +98,9 @@ func runChildren(t *testing.T, e Env, childTest string, jobs any, n int, workers
 			resPath := fmt.Sprintf("%s.child%d.ndjson", e.Out, w)
 			defer os.Remove(resPath)
 			defer os.Remove(resPath + ".cur")
+			defer os.Remove(resPath + ".cur.tmp")
 			from := 0
+			stalls := 0
 			for restarts := 0; restarts < 400; restarts++ {
 				os.Remove(resPath)
 				os.Remove(resPath + ".cur")
@@ -85,7 +110,30 @@ func runChildren(t *testing.T, e Env, childTest string, jobs any, n int, workers
 				var output bytes.Buffer
 				cmd.Stdout = &output
 				cmd.Stderr = &output
-				runErr := cmd.Run()
+				runErr := cmd.Start()
+				stalled := false
+				if runErr == nil {
+					exited := make(chan error, 1)
+					go func() { exited <- cmd.Wait() }()
+					lastCur, lastChange := "", time.Now()
+				wait:
+					for {
+						select {
+						case runErr = <-exited:
+							break wait
+						case <-time.After(2 * time.Second):
+							b, _ := os.ReadFile(resPath + ".cur")
+							if string(b) != lastCur {
+								lastCur, lastChange = string(b), time.Now()
+							} else if time.Since(lastChange) > stallSeconds*time.Second {
+								stalled = true
+								_ = cmd.Process.Kill()
+								runErr = <-exited
+								break wait
+							}
+						}
+					}
+				}
 				last := -1
 				if f, err := os.Open(resPath); err == nil {
 					sc := bufio.NewScanner(f)
@@ -105,12 +153,13 @@ func runChildren(t *testing.T, e Env, childTest string, jobs any, n int, workers
 					return
 				}
 				cur := -1
-				if b, err := os.ReadFile(resPath + ".cur"); err == nil {
-					fmt.Sscanf(string(b), "%d", &cur)
+				var cc childCur
+				if b, err := os.ReadFile(resPath + ".cur"); err == nil && json.Unmarshal(b, &cc) == nil {
+					cur = cc.Idx
 				}
 				var res any
 				if cur >= 0 && cur > last && onCrash != nil {
-					res = onCrash(cur, output.String())
+					res = onCrash(cur, cc.Info, output.String(), stalled)
 				}
 				if res == nil {
 					t.Errorf("child %d of %s died: %v\n%s", w, childTest, runErr, tail(output.String(), 3000))
@@ -121,6 +170,13 @@ func runChildren(t *testing.T, e Env, childTest string, jobs any, n int, workers
 				results[cur] = b
 				mu.Unlock()
 				from = cur + 1
+				if stalled {
+					// every stall costs real time: after a few the rest of this worker's share is skipped
+					stalls++
+					if stalls >= maxStallsPerWorker {
+						return
+					}
+				}
 			}
 		}(w)
 	}
@@ -161,4 +217,77 @@ func crashLine(s string) string {
 		msg = "child process died: " + tail(strings.TrimSpace(s), 200)
 	}
 	return msg
+}
+
+// ---------------------------------------------------------------------------
+// Scheduled jobs: a scenario run under a DFS over its choice tree, a seeded
+// random chooser, or a recorded choice sequence.
+// ---------------------------------------------------------------------------
+
+type schedJob struct {
+	Sc      json.RawMessage `json:"sc"`
+	Tree    bool            `json:"tree"`
+	PerTree int             `json:"pertree"`
+	Seed    int64           `json:"seed"`
+	Replay  bool            `json:"replay"`
+	Choices []int           `json:"choices"`
+}
+
+type schedResult struct {
+	Evs       []sim.Ev `json:"evs"`
+	Choices   []int    `json:"choices"`
+	Exhausted bool     `json:"exhausted"`
+}
+
+// schedInfo is what is needed to repeat the run a child was working on.
+type schedInfo struct {
+	Choices []int `json:"choices,omitempty"` // a prefix; beyond it the first option is taken
+	Seed    int64 `json:"seed,omitempty"`
+	Random  bool  `json:"random,omitempty"`
+}
+
+func runSchedJob(j *schedJob, progress func(any), run func(ch sim.Chooser) []sim.Ev) []schedResult {
+	out := []schedResult{}
+	switch {
+	case j.Replay && j.Choices == nil && j.Seed != 0:
+		ch := sim.NewRandomChooser(j.Seed)
+		progress(schedInfo{Seed: j.Seed, Random: true})
+		out = append(out, schedResult{run(ch), ch.Taken(), false})
+	case j.Replay:
+		ch := &sim.ReplayChooser{Seq: j.Choices}
+		progress(schedInfo{Choices: j.Choices})
+		out = append(out, schedResult{run(ch), ch.Taken(), false})
+	case j.Tree:
+		dfs := &sim.DFS{}
+		for k := 0; k < j.PerTree; k++ {
+			progress(schedInfo{Choices: dfs.Prefix()})
+			evs := run(dfs)
+			out = append(out, schedResult{evs, dfs.Taken(), false})
+			if !dfs.Next() {
+				out[len(out)-1].Exhausted = true
+				break
+			}
+		}
+	default:
+		ch := sim.NewRandomChooser(j.Seed)
+		progress(schedInfo{Seed: j.Seed, Random: true})
+		out = append(out, schedResult{run(ch), ch.Taken(), false})
+	}
+	return out
+}
+
+// schedReplayOf turns the progress info of a dead child into a replay descriptor.
+func schedReplayOf(sc any, info json.RawMessage) map[string]any {
+	var si schedInfo
+	_ = json.Unmarshal(info, &si)
+	rp := map[string]any{"scenario": sc}
+	if si.Random {
+		rp["seed"] = si.Seed
+	} else {
+		if si.Choices == nil {
+			si.Choices = []int{}
+		}
+		rp["choices"] = si.Choices
+	}
+	return rp
 }
